@@ -162,6 +162,13 @@ func body(s *simrt.Sim, tier string) {
 		plans = append(plans, l)
 	}
 	slowConsumer := !settled && s.Choose(3, "slow") == 0
+	// exact mode with a consumer that stops reading for a while: the limiter's own timeline must not depend on
+	// the consumer (every signal that falls into the stall is received when it ends, none is lost or added)
+	var stallFrom, stallEnd time.Duration
+	if settled && !bursts && s.Choose(3, "consumerstall") == 0 {
+		stallFrom = palette[s.Choose(len(palette), "stallFrom")] + 500*time.Microsecond
+		stallEnd = stallFrom + []time.Duration{initial, 3 * initial, 9 * initial}[s.Choose(3, "stallFor")] + 250*time.Microsecond
+	}
 	term := s.Choose(4, "term") // 0 close at end, 1 cancel then close, 2 close racing, 3 cancel racing then close
 	if settled {
 		term = s.Choose(2, "term")
@@ -188,7 +195,16 @@ func body(s *simrt.Sim, tier string) {
 		for !stopConsumer.Load() {
 			got := false
 			tm := time.NewTimer(10 * time.Second)
+			var stallC <-chan time.Time
+			var stallTm *time.Timer
+			if el := time.Since(start); stallEnd > 0 && el < stallFrom {
+				stallTm = time.NewTimer(stallFrom - el)
+				stallC = stallTm.C
+			} else if stallEnd > 0 && el < stallEnd {
+				s.Sleep(stallEnd - el)
+			}
 			var n int64
+			stalled := false
 			s.Block("recv", func() {
 				select {
 				case <-ch:
@@ -197,10 +213,20 @@ func body(s *simrt.Sim, tier string) {
 					if closeReturned.Load() != 0 {
 						lateSignal.Store(true)
 					}
+				case <-stallC:
+					stalled = true
 				case <-tm.C:
 				}
 			})
 			tm.Stop()
+			if stallTm != nil {
+				stallTm.Stop()
+			}
+			if stalled {
+				s.Fault("consumer.stall")
+				s.Sleep(stallEnd - time.Since(start))
+				continue
+			}
 			if !got {
 				continue
 			}
@@ -285,6 +311,9 @@ func body(s *simrt.Sim, tier string) {
 	if !racing {
 		// settle with the limiter still running: every window ends
 		s.Sleep(2*max + 50*time.Millisecond)
+		if el := time.Since(start); stallEnd > 0 && el < stallEnd+50*time.Millisecond {
+			s.Sleep(stallEnd + 50*time.Millisecond - el) // ... and the consumer reads again
+		}
 		// no Add lost
 		for i, a := range adds {
 			covered := false
@@ -307,7 +336,7 @@ func body(s *simrt.Sim, tier string) {
 					extended = true
 				}
 			}
-			if !slowConsumer && covered && !extended {
+			if !slowConsumer && stallEnd == 0 && covered && !extended {
 				for _, g := range sigs {
 					if g.stamp > a.inv {
 						if late := g.at.Sub(a.retTime); late > max+maxInjected+time.Millisecond {
@@ -366,12 +395,22 @@ func body(s *simrt.Sim, tier string) {
 			ok := false
 			all := model(at, initial, max, capN)
 			for _, want := range all {
+				if stallEnd > 0 {
+					// what falls into the consumer's stall is received at its end
+					w2 := append([]time.Duration(nil), want...)
+					for i, t := range w2 {
+						if t >= stallFrom && t < stallEnd {
+							w2[i] = stallEnd
+						}
+					}
+					want = w2
+				}
 				if fmt.Sprint(want) == fmt.Sprint(got) {
 					ok = true
 				}
 			}
 			if !ok {
-				s.Fail("timeline", fmt.Sprintf("initial=%v max=%v cap=%d adds at %v: signals at %v, the statement allows %v", initial, max, capN, at, got, all))
+				s.Fail("timeline", fmt.Sprintf("initial=%v max=%v cap=%d adds at %v (consumer not reading from %v to %v): signals at %v, the statement allows %v", initial, max, capN, at, stallFrom, stallEnd, got, all))
 			}
 		}
 		if s.Failed() {
